@@ -18,6 +18,7 @@ import (
 
 	"github.com/ipfs/go-cid"
 	"github.com/ipld/go-ipld-prime"
+	"github.com/ipld/go-ipld-prime/codec"
 	"github.com/ipld/go-ipld-prime/codec/dagcbor"
 	"github.com/ipld/go-ipld-prime/datamodel"
 	"github.com/ipld/go-ipld-prime/fluent/qp"
@@ -174,6 +175,12 @@ func cborEntries(b []byte) ([][]byte, error) {
 	return out, nil
 }
 
+// unsortedSeal: the token written by the library's own Encode with an encoder that keeps the keys in the order they come
+// (schema order) instead of sorting them: valid (the signature is over the canonical form) but not canonical bytes.
+func unsortedSeal(t token.Token, priv crypto.PrivKey) ([]byte, error) {
+	return t.Encode(priv, dagcbor.EncodeOptions{AllowLinks: true, MapSortMode: codec.MapSortMode_None}.Encode)
+}
+
 // largeTokenStreams: "however the stream is chunked" has no size attached: tokens of exactly 2^16 and 2^20 bytes, a little
 // more, and 4 MiB read from a stream give what they give from memory - the token and its CID - and the same bytes
 // followed by others are refused from a stream as they are from memory.
@@ -189,6 +196,60 @@ func largeTokenStreams(rep *Report) error {
 			return nil, cid.Undef, err
 		}
 		return d.ToSealed(iss.priv)
+	}
+	// bytes that are a valid token but not the canonical encoding: whatever memory says (token and CID, or an error), the
+	// stream says the same
+	{
+		d, err := delegation.Root(iss.id, iss.id, command.Command("/unsorted"), policy.Policy{}, delegation.WithMeta("k", "v"))
+		if err != nil {
+			return err
+		}
+		v, err := invocation.New(iss.id, iss.id, command.Command("/unsorted"), []cid.Cid{missingCid(1)}, invocation.WithArgument("b", 1), invocation.WithArgument("a", 2))
+		if err != nil {
+			return err
+		}
+		for _, t := range []token.Token{d, v} {
+			b, err := unsortedSeal(t, iss.priv)
+			if err != nil {
+				return err
+			}
+			type res struct {
+				id  cid.Cid
+				err error
+			}
+			apis := []struct {
+				name string
+				mem  func() res
+				str  func(io.Reader) res
+			}{
+				{"token", func() res { _, c, e := token.FromSealed(b); return res{c, e} }, func(r io.Reader) res { _, c, e := token.FromSealedReader(r); return res{c, e} }},
+			}
+			if _, ok := t.(*delegation.Token); ok {
+				apis = append(apis, struct {
+					name string
+					mem  func() res
+					str  func(io.Reader) res
+				}{"delegation", func() res { _, c, e := delegation.FromSealed(b); return res{c, e} }, func(r io.Reader) res { _, c, e := delegation.FromSealedReader(r); return res{c, e} }})
+			} else {
+				apis = append(apis, struct {
+					name string
+					mem  func() res
+					str  func(io.Reader) res
+				}{"invocation", func() res { _, c, e := invocation.FromSealed(b); return res{c, e} }, func(r io.Reader) res { _, c, e := invocation.FromSealedReader(r); return res{c, e} }})
+			}
+			for _, a := range apis {
+				m := a.mem()
+				for _, src := range sourceKinds() {
+					rep.Evaluations++
+					s := a.str(src.mk(b))
+					if (m.err == nil) != (s.err == nil) || (m.err == nil && m.id != s.id) {
+						rep.violation(map[string]any{"api": a.name, "reader": src.name, "bytes": "valid token, keys unsorted"}, fmt.Sprint(m.id, " ", m.err), fmt.Sprint(s.id, " ", s.err),
+							"stream and memory disagree on the same bytes (a valid token in a non-canonical encoding)")
+						break
+					}
+				}
+			}
+		}
 	}
 	for _, target := range []int{1 << 16, 1<<20 - 1, 1 << 20, 1<<20 + 1, 1<<20 + 4096, 4 << 20} {
 		pad := target - 400
@@ -712,6 +773,67 @@ func init() {
 								}
 								if got != n {
 									rep.violation(cs, fmt.Sprintf("%d tokens", n), fmt.Sprintf("%d tokens", got), fmt.Sprintf("a container of %d tokens reads back as %d", n, got))
+								}
+							}
+						}
+					}
+				}
+				// a valid token in a NON-canonical encoding (keys unsorted) is returned under the CID of ITS bytes - the bytes that
+				// were added - in every format; and every kind of stream (one byte at a time, data together with EOF ...) reads what
+				// the byte-slice reader reads
+				{
+					ub, err := unsortedSeal(many[3].tok, iss.priv)
+					if err != nil {
+						return err
+					}
+					uid := cborCid(ub)
+					for _, f := range []string{"car", "cbor"} {
+						for _, b64 := range []bool{false, true} {
+							cw := container.NewWriter()
+							cw.AddSealed(many[0].id, many[0].sealed)
+							cw.AddSealed(uid, ub)
+							cw.AddSealed(many[2].id, many[2].sealed)
+							var data []byte
+							switch {
+							case f == "car" && !b64:
+								data, err = cw.ToCar()
+							case f == "car":
+								data, err = cw.ToCarBase64()
+							case !b64:
+								data, err = cw.ToCbor()
+							default:
+								data, err = cw.ToCborBase64()
+							}
+							if err != nil {
+								continue
+							}
+							cs := map[string]any{"fmt": f, "b64": b64}
+							rd, merr := readContainer(data, f, b64, "bytes", nil)
+							rep.Evaluations++
+							if merr == nil {
+								if _, err := rd.GetToken(uid); err != nil {
+									rep.violation(cs, "the token under the CID of the bytes that were added", err.Error(), "a token in a non-canonical encoding is not retrievable under the CID of its sealed bytes")
+								}
+								if _, err := rd.GetDelegation(many[0].id); err != nil {
+									rep.violation(cs, "the other tokens", err.Error(), "a token next to one in a non-canonical encoding is lost")
+								}
+							}
+							for _, src := range sourceKinds() {
+								rep.Evaluations++
+								rs, serr := readContainer(nil, f, b64, "stream", src.mk(data))
+								if (merr == nil) != (serr == nil) {
+									rep.violation(map[string]any{"fmt": f, "b64": b64, "reader": src.name}, fmt.Sprint("byte-slice reader: ", merr), fmt.Sprint("stream reader: ", serr),
+										"the stream reader and the byte-slice reader disagree on the same container")
+									continue
+								}
+								if serr == nil {
+									n := 0
+									for range rs.GetAllDelegations() {
+										n++
+									}
+									if n != 3 {
+										rep.violation(map[string]any{"fmt": f, "b64": b64, "reader": src.name}, "3 tokens", fmt.Sprintf("%d tokens", n), "the stream reader returns another set than the byte-slice reader")
+									}
 								}
 							}
 						}
